@@ -13,7 +13,7 @@ func init() {
 	registerProperty(&PropertyInfo{
 		ID:    "C03",
 		Title: "Crash recovery is atomic, prefix-consistent and repeatable",
-		Rules: []string{"C03.R1", "C03.R2", "C03.R3", "C12.R3", "C12.R4", "C01.R2", "C02.R2", "C02.R5", "C13.R2", "C13.R4", "C11.R8", "C03.R4"},
+		Rules: []string{"C03.R1", "C03.R2", "C03.R3", "C12.R3", "C12.R4", "C01.R2", "C02.R2", "C02.R5", "C13.R2", "C13.R4", "C11.R8", "C03.R4", "C12.R6"},
 		Decides: "the shape of the recovery protocol on every path: a snapshot that fails to load sends control back to the loop over the listed snapshots (never out of the open call), open fails only when nothing loaded; with CRC validation on, a snapshot is returned only behind the true edge of bytes.Equal(computed, stored) where the computed sum is that of the hashing reader the decoder actually read through and both ranges are derived from Len()-crcWidth; the default configuration validates; the writer side hashes every byte and writes the sum last; segment ids start above every listed segment file and are only advanced atomically; snapshot epochs handed to introductions are never handed out twice; no mapped byte is used after its unmap and no length read from a file sizes an allocation unchecked (shared with C12); segments precede the snapshot naming them and rewrites truncate (shared with C02/C13). the checksum comparison covers all crcWidth bytes; the stand-in snapshot of an in-memory merge lists only the persisted snapshot's own elements or literals with a nil deleted set (C02.R5, C01.R2). every exported configuration constructor validates snapshot checksums; Persist creates files only under the canonical item name; a failing load hook closes the locked file.",
 		NotCovered: "that the recovered CONTENT equals a prefix of the applied batches (runtime sets of documents); what a torn file looks like on a particular file system.",
 	})
